@@ -50,6 +50,59 @@ pub(crate) mod proofs {
         kani::cover!(true, "end of harness reachable (vacuity guard)");
     }
 
+    // ---- adversarial-environment harnesses (A-model inside Kani): the atomic operations of `joined` are stubbed by versions that let ANOTHER
+    //      thread replace the word right before this thread's compare-exchange / that count the atomic loads ----
+    static mut CAS_CALLS: u32 = 0;
+    static mut CAS_OK_CUR: u64 = 0;
+    static mut LOADS: u32 = 0;
+    /// compare_exchange with one interfering update: before the FIRST attempt the environment may store an arbitrary word
+    fn interfering_compare_exchange(a: &AtomicU64, cur: u64, new: u64, _s: Ordering, _f: Ordering) -> Result<u64, u64> {
+        let cell = a as *const AtomicU64 as *mut u64;
+        unsafe {
+            CAS_CALLS += 1;
+            if CAS_CALLS == 1 && kani::any() { *cell = kani::any(); }
+            let v = *cell;
+            if v == cur { *cell = new; CAS_OK_CUR = cur; Ok(v) } else { Err(v) }
+        }
+    }
+    fn counting_load(a: &AtomicU64, _o: Ordering) -> u64 {
+        unsafe { LOADS += 1; *(a as *const AtomicU64 as *const u64) }
+    }
+
+    // @props C19
+    #[kani::proof] #[kani::unwind(3)]
+    #[kani::stub(std::sync::atomic::Atomic::<u64>::compare_exchange, interfering_compare_exchange)]
+    fn update_lost_to_nobody_when_another_thread_interferes_once() {
+        // no lost update, no mixed pair: whatever word another thread installs between this thread's load and its compare-exchange, the
+        // word finally installed is join(f(split(w))) for the word w that the SUCCESSFUL compare-exchange replaced -- both halves
+        // recomputed from that same w (a retry that keeps a stale count or a stale average fails here)
+        let w: u64 = kani::any();
+        let m = with_word(w);
+        m.atomic_compute(Relaxed, Relaxed, |c, a| (c.wrapping_add(1), f32::from_bits(a.to_bits() ^ 1)));
+        let w2 = unsafe { *(&m.joined as *const _ as *const u64) };
+        let at = unsafe { CAS_OK_CUR };
+        assert!(w2 % (1u64 << 32) == ((at % (1u64 << 32)) as u32).wrapping_add(1) as u64, "retry: the count is computed from the word the successful compare-exchange replaced");
+        assert!(w2 >> 32 == (at >> 32) ^ 1,                                   "retry: the average is computed from the word the successful compare-exchange replaced");
+        kani::cover!(unsafe { CAS_CALLS } == 2, "the first attempt failed, the retry succeeded");
+        kani::cover!(unsafe { CAS_CALLS } == 1, "no interference");
+        kani::cover!(true, "end of harness reachable (vacuity guard)");
+    }
+
+    // @props C19
+    #[kani::proof] #[kani::unwind(2)]
+    #[kani::stub(std::sync::atomic::Atomic::<u64>::load, counting_load)]
+    fn probe_is_one_atomic_load() {
+        // MECHANISM: 'any reading returns a count together with the average that belonged to that same count' rests on probe() reading
+        // the pair with ONE atomic 64-bit load (two 32-bit reads of the union's split view can straddle an update)
+        let w: u64 = kani::any();
+        let m = with_word(w);
+        unsafe { LOADS = 0; }
+        let (c, a) = m.probe();
+        assert!(unsafe { LOADS } == 1,                                        "probe: exactly one atomic load of the joined word");
+        assert!(c as u64 == w % (1u64 << 32) && a.to_bits() as u64 == w >> 32, "probe: the pair is that word's two halves");
+        kani::cover!(true, "end of harness reachable (vacuity guard)");
+    }
+
     // @props C19
     #[kani::proof]
     fn split_then_join_is_identity_on_every_word() {
